@@ -49,7 +49,7 @@ def main() -> None:
         })
     manifest = {
         "version": 1,
-        "setup_cmd": "cd lean && lake build",
+        "setup_cmd": "/venv/bin/python -m harness.translate && cd lean && lake build",
         "hooks": {
             "guard": "RUN_LLAMA_WORKFLOWS_PY_VERIF",
             "enable": "no source hooks are needed: the harness imports /repo's working tree by path and observes through the public Runtime/adapter interfaces; the guard variable is set by the harness but read by nothing in /repo",
